@@ -163,6 +163,9 @@ PAT_MENU = [("a.c", 0), ("*.c", 0), ("*.cpp", 0), ("?.c", 0), ("src", 0), ("src/
             ("src", 1), ("src/", 1), ("a.c", 1), ("src/*.c", 1), ("", 1), ("**/a.c", 1), ("lib/x y.c", 1), ("src/sub/..", 1)]
 
 
+BUGGY = "void f(void) { int a[2]; a[2] = 0; }\n"     # content of every file of a tree: one certain finding (arrayIndexOutOfBounds)
+
+
 def render(entry, cwd):
     """a [s, abs] string of a generated case as the command line gets it"""
     s = text(entry["s"])
@@ -195,18 +198,19 @@ def select_run(case, root):
         p = os.path.join(cwd, f)
         os.makedirs(os.path.dirname(p), exist_ok=True)
         with open(p, "w") as fh:
-            fh.write("int x;\n")
+            fh.write(BUGGY)
     inputs = [render(e, cwd) for e in case["inputs"]]
     ign = [render(e, cwd) for e in case["ign"]]
     filt = [render(e, cwd) for e in case["filt"]]
-    args = ["-j1"] + ["-i" + g for g in ign] + ["--file-filter=" + h for h in filt] + inputs
+    args = ["-j1", "--template=FINDING|{id}|{file}"] + ["-i" + g for g in ign] + ["--file-filter=" + h for h in filt] + inputs
     rc, out, err = vlib.run_cppcheck(args, cwd=cwd, timeout=120)
     if rc is None or rc < 0:
         raise vlib.InfraError("cppcheck timed out / crashed (rc=%s) in file selection case %s: %s" % (rc, case["id"], args))
     checked = re.findall(r"^Checking (.*) \.\.\.$", out, re.M)
+    reported = re.findall(r"^FINDING\|arrayIndexOutOfBounds\|(.*)$", err, re.M)
     shutil.rmtree(cwd, ignore_errors=True)
     return {"id": case["id"], "cwd": chars(cwd), "files": case["files"], "inputs": [chars(x) for x in inputs],
-            "ign": [chars(x) for x in ign], "filt": [chars(x) for x in filt], "checked": [chars(x) for x in checked]}, \
+            "ign": [chars(x) for x in ign], "filt": [chars(x) for x in filt], "checked": [chars(x) for x in checked], "reported": [chars(x) for x in reported]}, \
         {"args": args, "rc": rc, "stdout": out[-1500:], "stderr": err[-500:]}
 
 
@@ -342,7 +346,7 @@ def main(tier, seed, replay=None):
     bycase = {c["id"]: c for c in cases}
     for b in selbad:
         case = bycase[b["id"]]
-        parts = ["%s=%s" % (k, [text(x) for x in b[k]]) for k in ("missing", "unexpected", "twice", "badname", "unsorted") if b[k]]
+        parts = ["%s=%s" % (k, [text(x) for x in b[k]]) for k in ("missing", "unexpected", "twice", "badname", "unsorted", "misreported") if b[k]]
         allbad.append({"kind": "select", "case": case, "run": runs[b["id"]], "judgement": b, "key": select_key(case),
                        "what": "file selection: tree %s, cppcheck %s (cwd=<tree>): %s" % (
                            [text(f) for f in case["files"]], " ".join(runs[b["id"]]["args"]), "; ".join(parts)),
